@@ -7,6 +7,7 @@
 package c07
 
 import (
+	"context"
 	"encoding/json"
 	"fmt"
 	"io"
@@ -344,7 +345,7 @@ func e2eNonTrivial(procs []e2eProc) bool {
 	return false
 }
 
-func checkE2EFlow(idx int, f e2eFlow) error {
+func checkE2EFlow(idx int, f e2eFlow, shutdownBeforeResponse bool) error {
 	url := fmt.Sprintf("h.com/c%d", idx)
 	// the client's own value of x-a must not survive an edit of x-a and must not be touched otherwise
 	d, err := e2eSend("lunar-on-request", url, "host: h.com\r\nx-a: orig", 0)
@@ -403,6 +404,14 @@ func checkE2EFlow(idx int, f e2eFlow) error {
 	}
 	// response direction (a real provider response; flows with an answering processor are probed too: the
 	// response chain from stream start is independent of the request path)
+	if shutdownBeforeResponse {
+		// the gateway is told to shut down (SIGTERM cancels the process context) while this transaction is in
+		// flight at the provider: its response must still be handled as configured
+		ctx, cancel := context.WithCancel(context.Background())
+		cancel()
+		contextmanager.Get().WithContext(ctx)
+		defer contextmanager.Get().WithContext(context.Background())
+	}
 	d, err = e2eSend("lunar-on-response", url, "content-type: text/plain\r\nx-b: orig", 200)
 	if err != nil {
 		return err
@@ -483,7 +492,14 @@ func TestFoldThroughGateway(t *testing.T) {
 				fj, _ := json.Marshal(f)
 				r.NonTrivial(string(fj), func() any { return f })
 			}
-			if err := checkE2EFlow(i, f); err != nil {
+			shutdown := rapid.IntRange(0, 3).Draw(t, "shutdown-before-response") == 0
+			if shutdown {
+				r.Class("response handled after the shutdown signal")
+			}
+			if err := checkE2EFlow(i, f, shutdown); err != nil {
+				if shutdown {
+					t.Fatalf("%s", r.Fail(repr(), "flow c%d (the process context was cancelled between its request and its response): %v", i, err))
+				}
 				t.Fatalf("%s", r.Fail(repr(), "flow c%d: %v", i, err))
 			}
 		}
